@@ -1355,7 +1355,7 @@ def hpack_encoder_histories(ctx):
     from . import c07
     from ..runner import Ctx
     t0 = time.time()
-    exe, err = C.build_harness("h_hpack")
+    exe, err = C.build_harness("h_hpack", libs=c07.HARNESS_LIBS, extra=c07.HARNESS_EXTRA)
     if exe is None:
         ctx.broken.append({"kind": "harness-build", "names": ["h_hpack"], "log": (err or "")[-3000:]})
         return
